@@ -18,6 +18,10 @@ Proof. exact (compress_fields_spec pfs rfs acc rs). Qed.
 Theorem c02_no_compression pd r d : rule_nature r = NoCompression ->
   compress pd r d = Ok (rule_id r ++ concat (map f_val (pd_fields pd)) ++ pd_payload pd).
 Proof. exact (compress_no_compression pd r d). Qed.
+(* a fragmentation rule is neither branch of compress: the bare rule id, without the packet (layout is None for such a rule:
+   RFC 8724 section 7 has no compressed-packet layout for it; the matcher never offers it, C04) *)
+Theorem c02_fragmentation pd r d : rule_nature r = Fragmentation -> compress pd r d = Ok (rule_id r).
+Proof. exact (compress_fragmentation pd r d). Qed.
 (* the size announcement is the RFC 8724 7.4.2 one *)
 Theorem c02_size n : 0 <= n < 65536 -> encode_length n = Ok (spec_size n).
 Proof. exact (encode_length_spec n). Qed.
@@ -30,6 +34,9 @@ Theorem c02_layout_bytes pd r d s : canon_pdesc pd -> canon_rule r ->
 Proof. exact (bcompress_layout pd r d s). Qed.
 Theorem c02_size_bytes n p : encode_length n = Ok p -> exists x, bencode_length n = Ok x /\ canon x /\ abs x = p.
 Proof. exact (bencode_length_refines n p). Qed.
+Theorem c02_fragmentation_bytes pd r d : canon (brule_id r) -> brule_nature r = Fragmentation ->
+  exists x, bcompress pd r d = Ok x /\ canon x /\ abs x = abs (brule_id r).
+Proof. exact (bcompress_fragmentation pd r d). Qed.
 
 (* non-vacuity: a two-field rule (LSB variable length, mapping) on a concrete packet *)
 Example c02_ex :
@@ -44,6 +51,8 @@ Proof. vm_compute. reflexivity. Qed.
 Print Assumptions c02_layout.
 Print Assumptions c02_fields.
 Print Assumptions c02_no_compression.
+Print Assumptions c02_fragmentation.
+Print Assumptions c02_fragmentation_bytes.
 Print Assumptions c02_size.
 Print Assumptions c02_layout_bytes.
 Print Assumptions c02_size_bytes.
